@@ -60,6 +60,7 @@ DefStream ==
 Init(role, cfg) ==
     [role |-> role, cfg |-> cfg,
      dead |-> FALSE, tainted |-> FALSE, ended |-> FALSE,
+     err |-> FALSE,          \* the connection failed (fault, error GOAWAY either way) as opposed to a clean close
      owed |-> <<>>, pa |-> DefaultSettings,
      sentSet |-> <<>>, la |-> DefaultSettings, laMaxC |-> -1, advMaxcMin |-> -1,
      pongs |-> <<>>,
@@ -257,7 +258,7 @@ OutResets(m, f, l) ==
                    ELSE m
              m2 == Check(m1, "C15.goaway_covers_surfaced", f.last >= m.maxSurfaced, l, 0, <<f.last, m.maxSurfaced>>)
          IN [m2 EXCEPT !.goOut = f.last, !.goOutN = m.goOutN + 1,
-                       !.dead = m.dead \/ f.ch # 0 \/ f.cl # 0]
+                       !.dead = m.dead \/ f.ch # 0 \/ f.cl # 0, !.err = m.err \/ f.ch # 0 \/ f.cl # 0]
     ELSE m
 
 \* after GOAWAY / received restrictions: no new streams
@@ -353,7 +354,7 @@ StepIn(m, f, l) ==
     ELSE IF ty = "GOAWAY" /\ ok
     THEN [mm EXCEPT !.goIn = IF m.goIn < 0 THEN f.last ELSE Min(m.goIn, f.last),
                     !.goInCode = f.cl,
-                    !.dead = m.dead \/ f.ch # 0 \/ f.cl # 0,
+                    !.dead = m.dead \/ f.ch # 0 \/ f.cl # 0, !.err = m.err \/ f.ch # 0 \/ f.cl # 0,
                     !.pend = Append(m.pend, [k |-> "goaway", sid |-> f.last, stage |-> 0])]
     ELSE IF ~ok THEN [mm EXCEPT !.tainted = TRUE]
     ELSE mm
@@ -424,9 +425,11 @@ StepApi(m, e, l) ==
     ELSE IF c = "set_target_window" THEN [m EXCEPT !.maxTarget = Max(m.maxTarget, e.v)]
     ELSE IF c = "set_initial_window" /\ e.res = "ok"
     THEN Check(m, "C14.local_settings_pending", m.sentSet = <<>>, l, 0, "second local SETTINGS accepted while one is unacknowledged")
-    ELSE IF c = "conn_poll" /\ e.res \in {"ok", "err"} THEN [m EXCEPT !.ended = TRUE]
-    ELSE IF c = "conn_drop" THEN [m EXCEPT !.ended = TRUE]
-    ELSE IF c \in {"graceful_shutdown", "abrupt_shutdown"} THEN [m EXCEPT !.dead = TRUE]
+    ELSE IF c = "conn_poll" /\ e.res \in {"ok", "err"} THEN [m EXCEPT !.ended = TRUE, !.err = m.err \/ e.res = "err"]
+    ELSE IF c = "conn_drop" THEN [m EXCEPT !.ended = TRUE, !.err = TRUE]
+    ELSE IF c = "graceful_shutdown" THEN [m EXCEPT !.dead = TRUE]
+    ELSE IF c \in {"abrupt_shutdown", "conn_drop"} THEN [m EXCEPT !.dead = TRUE, !.err = TRUE]
+    ELSE IF c = "conn_poll" /\ e.res = "err" THEN [m EXCEPT !.ended = TRUE, !.err = TRUE]
     ELSE m
 
 \* ==== quiescence ====================================================================
@@ -497,13 +500,13 @@ MarkOverLimit(m, f) ==
 Step(m, e, l) ==
     IF e.t = "out" THEN StepOut(m, e.f, l)
     ELSE IF e.t = "in" THEN StepInBlockEnd(MarkZeroed(StepIn(MarkOverLimit(m, e.f), e.f, l), e.f), e.f)
-    ELSE IF e.t = "rd" THEN (IF e.n = 0 \/ e.n = -2 THEN [StepRd(m) EXCEPT !.dead = TRUE] ELSE StepRd(m))
+    ELSE IF e.t = "rd" THEN (IF e.n = 0 \/ e.n = -2 THEN [StepRd(m) EXCEPT !.dead = TRUE, !.err = m.err \/ e.n = -2] ELSE StepRd(m))
     ELSE IF e.t = "fl" THEN (IF e.ok THEN StepFl(m) ELSE m)
-    ELSE IF e.t = "wr" THEN (IF e.n = -2 \/ e.n = 0 THEN [m EXCEPT !.dead = TRUE] ELSE m)
+    ELSE IF e.t = "wr" THEN (IF e.n = -2 \/ e.n = 0 THEN [m EXCEPT !.dead = TRUE, !.err = TRUE] ELSE m)
     ELSE IF e.t = "sd" THEN [m EXCEPT !.dead = TRUE]
     ELSE IF e.t = "api" THEN StepApi(m, e, l)
-    ELSE IF e.t = "fault" THEN [m EXCEPT !.dead = TRUE]
-    ELSE IF e.t = "panic" THEN [m EXCEPT !.dead = TRUE]
+    ELSE IF e.t = "fault" THEN [m EXCEPT !.dead = TRUE, !.err = TRUE]
+    ELSE IF e.t = "panic" THEN [m EXCEPT !.dead = TRUE, !.err = TRUE]
     ELSE IF e.t = "q" THEN StepQ(m, e, l)
     ELSE m
 =============================================================================
